@@ -36,7 +36,7 @@ PID = "C19"
 RULE = (
     "affine: every expression tree with <= k binary operators over leaves {d0,d1,0,1,2,3}, ops {+,*,floordiv,mod} (constant on one side of *, positive "
     "constant divisor), evaluated on the box [-3,6]^2; matrix: all integer matrices up to 3x3 (entries -2..2, thinned) with offsets; apattern: bounds from "
-    "{1,2,3,None} x matrices; stride: all patterns with <= 4 temporal dims, ub in {0,1,2,3}, ts in {0,1,2,4,8}, ss in {[],[8],[0],[8,64]}; pack: all value/offset "
+    "{1,2,3,None} x matrices; stride: all patterns with <= 4 temporal dims, ub in {0,1,2,3}, ts in {0,1,2,4,8}, ss in {[],[8],[0],[8,64]}, plus <= 3 dims with ts in {-2,0,1,2,3,5,6,7,9}; pack: all value/offset "
     "lists of length <= 4 over {0,1,0x7f,0xff} x {0,8,16,24} in int/SSA mixes; sconfig: streamer configuration menu. distinct = distinct (input, denotation)"
 )
 ASSUMPTIONS = [
@@ -156,6 +156,10 @@ def space(tier):
         parts.append(Tagged("stride", Product(power(ubs, n), power(tss, n), sss)))
     if tier == "quick":
         parts.append(Tagged("stride", Product(power([1, 2, 3], 4), power([0, 1, 2, 4, 8], 4), [(8,)])))
+    # strides that are not multiples of each other (padded pitches: outer stride = inner extent + a pad smaller than the inner stride) and negative strides
+    odd = [-2, 0, 1, 2, 3, 5, 6, 7, 9]
+    for n in range(2, 5 if tier == "thorough" else 4):
+        parts.append(Tagged("stride", Product(power([1, 2, 3], n), power(odd, n), [(), (8,)])))
     # pack_bitlist
     vals, offs = [0, 1, 0x7F, 0xFF], [0, 8, 16, 24]
     for n in range(1, 5):
